@@ -148,12 +148,27 @@ trait E: Sized + 'static {
     const SZ: usize;
     fn mk(id: u64) -> Self;
     fn eid(&self) -> u64;
+    /// `GenericArray::<Self, N>::default_boxed()` for the kinds whose `Default` counts its calls
+    const HAS_DEFAULT: bool = false;
+    fn default_boxed<N: ArrayLength>() -> Option<Box<GenericArray<Self, N>>> { None }
+}
+impl E for Dc {
+    const SZ: usize = 8;
+    fn mk(id: u64) -> Dc { Dc(id) }
+    fn eid(&self) -> u64 { self.0 }
+    const HAS_DEFAULT: bool = true;
+    fn default_boxed<N: ArrayLength>() -> Option<Box<GenericArray<Dc, N>>> { Some(GenericArray::default_boxed()) }
 }
 impl E for u32 { const SZ: usize = 4; fn mk(id: u64) -> u32 { id as u32 } fn eid(&self) -> u64 { *self as u64 } }
 impl E for u64 { const SZ: usize = 8; fn mk(id: u64) -> u64 { id } fn eid(&self) -> u64 { *self } }
 impl E for [u8; 3] { const SZ: usize = 3; fn mk(id: u64) -> [u8; 3] { [id as u8, 1, 2] } fn eid(&self) -> u64 { self[0] as u64 } }
 impl E for () { const SZ: usize = 0; fn mk(_: u64) {} fn eid(&self) -> u64 { 0 } }
-impl E for Tr { const SZ: usize = 8; fn mk(id: u64) -> Tr { Tr::new(id) } fn eid(&self) -> u64 { self.id } }
+impl E for Tr {
+    const SZ: usize = 8;
+    fn mk(id: u64) -> Tr { Tr::new(id) }
+    fn eid(&self) -> u64 { self.id }
+    // (`Tr::default` reports an injected panic through the panic hook, which allocates: the generator form is used)
+}
 struct Z;
 impl Drop for Z { fn drop(&mut self) { paused(|| log("drop:z".to_string())); } }
 impl E for Z { const SZ: usize = 0; fn mk(_: u64) -> Z { Z } fn eid(&self) -> u64 { 0 } }
@@ -190,7 +205,20 @@ fn run<T: E, N: ArrayLength>(kv: &KV, tracked: bool) -> String {
         "boxed_generate" | "default_boxed" => {
             start(fail_at);
             let mut ncalls = 0usize;
+            // `default_boxed` proper where the element's `Default` counts its calls (Tr, Dc); the generator form otherwise
+            let real_default = op == "default_boxed" && T::HAS_DEFAULT;
+            if real_default {
+                CLONE_CALLS.with(|c| *c.borrow_mut() = 0);
+                NEXT_ID.with(|b| *b.borrow_mut() = 1000);
+                BAD_CLONE.with(|b| *b.borrow_mut() = bad_call);
+                paused(|| { take_log(); });
+            }
             let r = catch_unwind(AssertUnwindSafe(|| {
+                if real_default {
+                    let b = T::default_boxed::<N>().unwrap();
+                    ncalls = CLONE_CALLS.with(|c| *c.borrow()) as usize;
+                    return b;
+                }
                 Box::<GenericArray<T, N>>::generate(|i| {
                     ncalls += 1;
                     if bad_call == Some(i as u64) {
@@ -211,6 +239,7 @@ fn run<T: E, N: ArrayLength>(kv: &KV, tracked: bool) -> String {
                 }
                 Err(_) => ("panicked", vec![]),
             };
+            if real_default { ncalls = CLONE_CALLS.with(|c| *c.borrow()) as usize; BAD_CLONE.with(|b| *b.borrow_mut() = None); }
             let s = stop();
             let d = drop_report(tracked);
             // the array's own block: requests / releases with exactly its layout (the panic runtime's
@@ -308,7 +337,17 @@ fn run<T: E, N: ArrayLength>(kv: &KV, tracked: bool) -> String {
         }
         "boxed_collect" => {
             start(fail_at);
-            let r = catch_unwind(AssertUnwindSafe(|| GenericArray::<T, N>::try_boxed_from_iter((0..l as u64).map(|i| T::mk(1 + i)).filter(|_| true))));
+            // the source panics on its k-th `next()` call (k may be the probe after the N-th item)
+            let poll_bad: Option<u64> = get(kv, "fault").strip_prefix("poll:").and_then(|k| k.parse().ok());
+            let mut polls = 0u64;
+            let mut next_id = 0u64;
+            let src = std::iter::from_fn(|| {
+                let k = polls;
+                polls += 1;
+                if poll_bad == Some(k) { std::panic::resume_unwind(Box::new(Inject)); }
+                if next_id < l as u64 { next_id += 1; Some(T::mk(next_id)) } else { None }
+            });
+            let r = catch_unwind(AssertUnwindSafe(|| GenericArray::<T, N>::try_boxed_from_iter(src)));
             let (res, items) = match r {
                 Ok(Ok(b)) => { let it: Vec<u64> = paused(|| b.iter().map(|x| x.eid()).collect()); drop(b); ("ok", it) }
                 Ok(Err(_)) => ("err", vec![]),
@@ -317,7 +356,7 @@ fn run<T: E, N: ArrayLength>(kv: &KV, tracked: bool) -> String {
             let s = stop();
             let d = drop_report(tracked);
             let mut f = discipline(&s);
-            if (res == "ok") != (l == n) { f.push("length-check".to_string()); }
+            if res != "panicked" && (res == "ok") != (l == n) { f.push("length-check".to_string()); }
             format!("res={} items=[{}]{} | orc={}", res, show_nats(items), d, orc(f))
         }
         "box_map" | "box_zip" => {
@@ -398,6 +437,7 @@ fn answer(kv: &KV) -> String {
         "b3" => by_len::<[u8; 3]>(kv, false),
         "unit" => by_len::<()>(kv, false),
         "tr" => by_len::<Tr>(kv, true),
+        "dc" => by_len::<Dc>(kv, false),
         "z" => by_len::<Z>(kv, true),
         "z8" => by_len::<Z8>(kv, false),
         _ => "bad-kind".to_string(),
